@@ -14,6 +14,7 @@ RULE = ('scenarios (stdin mode with the parent impersonating git show REV:file /
         'nothing; delta rg|git blame|git grep ... with a parent that makes the background guess differ from the known command) x '
         'every feasible order of the critical sections at gate granularity (background store before / between / after the known '
         'store and each query; background store released while query 1 is already waiting on the condition variable), then '
+        'runs with delays injected from outside (LD_PRELOAD shim) before/after the wake-all futex call of either thread, '
         'seeded-jitter and unforced runs; an offline checker replays the recorded trace against a sequential register model; '
         'distinct = (scenario, schedule); non-trivial = the schedule was actually realised (gate order confirmed in the trace)')
 ASSUMPTIONS = ['hooks are compiled in with --cfg dandavison_delta_verif; gates sit before lock acquisitions and after releases only',
